@@ -1509,8 +1509,9 @@ def _setstate(self, state: dict[str, Any]) -> None:  # noqa: D417
     Args:
         state (dict): State parameter to set the object
     """
-    self._tensordict = state.get("tensordict")
-    self._non_tensordict = state.get("non_tensordict")
+    # through __dict__: a frozen class refuses attribute assignment
+    self.__dict__["_tensordict"] = state.get("tensordict")
+    self.__dict__["_non_tensordict"] = state.get("non_tensordict")
 
 
 def _getattr(self, item: str, **kwargs) -> Any:
